@@ -41,7 +41,73 @@ type c16Obs struct {
 type c16Result struct {
 	ID int `json:"id"`
 	c16Obs
-	Ser c16Obs `json:"ser"`
+	Ser     c16Obs `json:"ser"`
+	PosScan string `json:"posscan,omitempty"` // non-empty: Funcode.Position depends on the lookups made before
+}
+
+// c16PosScan queries the position of every instruction offset of every function of the compiled main file in ascending,
+// descending and strided order on ONE program, and in descending order on a freshly compiled one: a position is a
+// function of the table and the offset alone (spec/LineTab.tla: the last row whose pc is <= the offset).
+func c16PosScan(c *c16Case, opts *syntax.FileOptions) (diff string) {
+	defer func() {
+		if r := recover(); r != nil {
+			diff = fmt.Sprintf("panic during the position scan: %v", r)
+		}
+	}()
+	h := &hostEnv{}
+	pre := h.predeclared()
+	compile := func() *starlark.Program {
+		_, prog, err := starlark.SourceProgramOptions(opts, c.File, c.Src, pre.Has)
+		if err != nil {
+			return nil
+		}
+		return prog
+	}
+	p1, p2 := compile(), compile()
+	if p1 == nil || p2 == nil {
+		return ""
+	}
+	f1, f2 := starlark.VerifProgramFuncodes(p1), starlark.VerifProgramFuncodes(p2)
+	for k, fn := range f1 {
+		n := len(fn.Code)
+		if n > 60000 {
+			n = 60000
+		}
+		asc := make([]syntax.Position, n)
+		for pc := 0; pc < n; pc++ {
+			asc[pc] = fn.Position(uint32(pc))
+		}
+		check := func(what string, pc int, got syntax.Position) string {
+			if got != asc[pc] {
+				return fmt.Sprintf("function %s: Position(%d) = %d:%d in the ascending scan but %d:%d %s", fn.Name, pc, asc[pc].Line, asc[pc].Col, got.Line, got.Col, what)
+			}
+			return ""
+		}
+		for pc := n - 1; pc >= 0; pc-- {
+			if d := check("in the descending scan of the same program", pc, fn.Position(uint32(pc))); d != "" {
+				return d
+			}
+		}
+		for _, stride := range []int{7, 3} {
+			for pc := 0; pc < n; pc += stride {
+				if d := check(fmt.Sprintf("in the scan with stride %d", stride), pc, fn.Position(uint32(pc))); d != "" {
+					return d
+				}
+				if pc > 0 {
+					if d := check("right after a later offset", pc-1, fn.Position(uint32(pc-1))); d != "" {
+						return d
+					}
+				}
+			}
+		}
+		g := f2[k]
+		for pc := n - 1; pc >= 0; pc-- {
+			if d := check("in the first-touch descending scan of a freshly compiled program", pc, g.Position(uint32(pc))); d != "" {
+				return d
+			}
+		}
+	}
+	return ""
 }
 
 type c16Exec func(th *starlark.Thread, file, src string, pre starlark.StringDict) (starlark.StringDict, error)
@@ -156,6 +222,9 @@ func init() {
 			res := c16Result{ID: c.ID}
 			res.c16Obs = c16Observe(&c, c16Direct(opts))
 			res.Ser = c16Observe(&c, c16Serialized(opts))
+			if c.ID%4 == 0 {
+				res.PosScan = c16PosScan(&c, opts)
+			}
 			nw.write(res)
 			return nil
 		})
